@@ -8,6 +8,7 @@ def configs(tier):
         ('root children 3docs x 2slots, perm+dup', dict(family='root_level', fam_kw=dict(docs=3, slots=2, attrs=0, text=False, pool=2, leaf_form=False, root_form=False), alts_kinds=('perm', 'dup'))),
         ('root attributes+text 2docs, all alternatives', dict(family='root_level', fam_kw=dict(docs=2, slots=0, attrs=2, text=True, pool=2, leaf_form=False))),
         ('root attributes 3docs, perm+dup', dict(family='root_level', fam_kw=dict(docs=3, slots=0, attrs=2, text=False, pool=2, leaf_form=False, root_form=False), alts_kinds=('perm', 'dup'))),
+        ('namespace-prefixed root: children 2docs x 2slots, all alternatives', dict(family='root_level', fam_kw=dict(docs=2, slots=2, attrs=0, text=False, leaf_form=False, rname='h:r', names=['ns:c', 'c']))),
         ('nested 2docs x 2occ x 1slot, perm+dup+err', dict(family='one_level', fam_kw=dict(docs=2, occ=2, slots=1, attrs=0, text=False, pool=2, leaf_form=False, p_form=False, first_present=False), alts_kinds=('perm', 'dup', 'err'))),
         ('nested 2docs x 1occ x 2slots + text, all alternatives', dict(family='one_level', fam_kw=dict(docs=2, occ=1, slots=2, attrs=0, text=True, pool=2, leaf_form=False, p_form=True, first_present=False))),
     ]
